@@ -1,6 +1,6 @@
 (** The re-evaluator reproduces Python's evaluation.
 
-    For every condition without comprehensions and dict displays ([simple]), under every data model
+    For every condition without comprehensions ([simple]), under every data model
     in which only callables can be called: if Python evaluates the expression to [v], the
     re-evaluator started from the same variable tables returns [v], ends in the same tables and
     records exactly the nodes Python evaluated, with the values Python computed, in the same order.
@@ -21,8 +21,7 @@ with dpairs_mut := Induction for dpairs Sort Prop
 with gens_mut := Induction for gens Sort Prop.
 Combined Scheme expr_mutind from expr_mut, exprs_mut, kwds_mut, cmps_mut, parts_mut, dpairs_mut, gens_mut.
 
-(** the fragment: no comprehension, no dict display (the re-evaluator visits a dict display's value
-    before its key, Python the key first; comprehensions are re-compiled, see ExprComp below) *)
+(** the fragment: no comprehension (their parts are visited on their own and the whole is re-compiled) *)
 Fixpoint simple (e : expr) : bool :=
   match e with
   | EConst _ | EName _ | EOmit => true
@@ -33,14 +32,16 @@ Fixpoint simple (e : expr) : bool :=
   | ECmp l cs => simple l && simple_c cs
   | EIf a b c => simple a && simple b && simple c
   | EFStr ps => simple_p ps
-  | EDict _ => false
+  | EDict ds => simple_d ds
   | EComp _ _ _ _ => false
   end
 with simple_l (es : exprs) : bool := match es with ENil => true | ECons e r => simple e && simple_l r end
 with simple_k (ks : kwds) : bool := match ks with KNil => true | KCons _ e r => simple e && simple_k r end
 with simple_c (cs : cmps) : bool := match cs with CNil => true | CCons _ e r => simple e && simple_c r end
 with simple_p (ps : parts) : bool :=
-  match ps with PNil => true | PLit _ r => simple_p r | PFmt e _ r => simple e && simple_p r end.
+  match ps with PNil => true | PLit _ r => simple_p r | PFmt e _ r => simple e && simple_p r end
+with simple_d (ds : dpairs) : bool :=
+  match ds with DNil => true | DCons k v r => simple k && simple v && simple_d r | DStar e r => simple e && simple_d r end.
 
 Definition ups (s : gst val) : gst rval := (up (fst s), snd s).
 
@@ -83,6 +84,23 @@ Proof.
   rewrite E1, all_some_map, E2. reflexivity.
 Qed.
 
+Definition upd (kvs : list (val * val)) : list (rval * rval) := map (fun p => (Some (fst p), Some (snd p))) kvs.
+
+Lemma settle_upd P kvs : settle P (upd kvs) = upd kvs.
+Proof. induction kvs as [|[k v] r IH]; cbn; [reflexivity|]. f_equal. exact IH. Qed.
+
+Lemma dict_items_upd P kvs : dict_items P (upd kvs) = Some kvs.
+Proof.
+  unfold dict_items. rewrite settle_upd.
+  assert (E1 : map fst (upd kvs) = map Some (map fst kvs)).
+  { unfold upd. induction kvs as [|[k v] r IH]; cbn; [reflexivity|]. f_equal. exact IH. }
+  assert (E2 : map snd (upd kvs) = map Some (map snd kvs)).
+  { clear E1. unfold upd. induction kvs as [|[k v] r IH]; cbn; [reflexivity|]. f_equal. exact IH. }
+  assert (E3 : combine (map fst kvs) (map snd kvs) = kvs).
+  { clear E1 E2. induction kvs as [|[k v] r IH]; cbn; [reflexivity|]. f_equal. exact IH. }
+  rewrite E1, E2, !all_some_map, E3. reflexivity.
+Qed.
+
 Section Refine.
 Variable P : prims.
 Hypothesis call_callable : forall f a k r, p_call P f a k = Ok r -> p_callable P f = true.
@@ -100,6 +118,9 @@ Definition Pc (cs : cmps) : Prop :=
   rc_cmps P left i cs false result (ups s) = Ok (Some v, ups s').
 Definition Pp (ps : parts) : Prop :=
   simple_p ps = true -> forall i s ss s', ev_parts P i ps s = Ok (ss, s') -> rc_parts P i ps (ups s) = Ok (Some ss, ups s').
+
+Definition Pd (ds : dpairs) : Prop :=
+  simple_d ds = true -> forall i s kvs s', ev_dpairs P i ds s = Ok (kvs, s') -> rc_dpairs P i ds (ups s) = Ok (upd kvs, ups s').
 
 Ltac inv H := let a := fresh "a" in let s1 := fresh "s" in let E := fresh "E" in
   apply bind_ok in H; destruct H as (a & s1 & E & H).
@@ -143,9 +164,9 @@ Qed.
 
 Theorem refine_all :
   (forall e, Pe e) /\ (forall es, Pl es) /\ (forall ks, Pk ks) /\ (forall cs, Pc cs) /\ (forall ps, Pp ps) /\
-  (forall ds : dpairs, True) /\ (forall gs : gens, True).
+  (forall ds, Pd ds) /\ (forall gs : gens, True).
 Proof.
-  apply expr_mutind; unfold Pe, Pl, Pk, Pc, Pp; try (intros; exact I).
+  apply expr_mutind; unfold Pe, Pl, Pk, Pc, Pp, Pd; try (intros; exact I).
   - (* EConst *) intros v _ i s w s' H. cbn [ev] in H. apply tail_ok in H as [-> ->]. cbn [rc]. apply tail_eq.
   - (* EName *) intros id _ i s v s' H. cbn [ev] in H. cbn [rc].
     unfold bindM at 1, get_env at 1 in H. unfold bindM at 1, get_env at 1. cbn [fst] in *.
@@ -214,7 +235,10 @@ Proof.
   - (* ETuple *) intros es IH Hs i s v s' H. cbn [simple] in Hs. cbn [ev] in H. cbn [rc].
     inv H. destruct (IH Hs) as [IHa _]. apply IHa in E. rewrite (bind_eq _ _ _ _ _ E). cbn beta iota.
     rewrite all_some_map. apply tail_ok in H as [-> ->]. apply tail_eq.
-  - (* EDict *) intros ds _ Hs. cbn in Hs. discriminate.
+  - (* EDict *) intros ds IH Hs i s v s' H. cbn [simple] in Hs. cbn [ev] in H. cbn [rc].
+    inv H. apply (IH Hs) in E. rewrite (bind_eq _ _ _ _ _ E). cbn beta iota. rewrite dict_items_upd.
+    inv H. apply lift_ok in E0 as [E0 ->]. rewrite (bind_eq _ _ _ _ _ (lift_eq _ _ _ E0)).
+    apply tail_ok in H as [-> ->]. apply tail_eq.
   - (* EComp *) intros k a _ b _ gs _ Hs. cbn in Hs. discriminate.
   - (* ENil *) intros _. split.
     + intros i s vs s' H. cbn in H. done_ret H. reflexivity.
@@ -276,6 +300,17 @@ Proof.
     inv H. apply (IHe Hs) in E. rewrite (bind_eq _ _ _ _ _ E). cbn beta iota.
     inv H. apply lift_ok in E0 as [E0 ->]. rewrite (bind_eq _ _ _ _ _ (lift_eq _ _ _ E0)).
     inv H. apply (IHr Hs0) in E1. rewrite (bind_eq _ _ _ _ _ E1). done_ret H. reflexivity.
+  - (* DNil *) intros _ i s kvs s' H. cbn in H. done_ret H. reflexivity.
+  - (* DCons *) intros k IHk v IHv r IHr Hs i s kvs s' H. cbn [simple_d] in Hs. split_simple Hs.
+    cbn [ev_dpairs] in H. cbn [rc_dpairs].
+    inv H. apply (IHk Hs) in E. rewrite (bind_eq _ _ _ _ _ E).
+    inv H. apply (IHv Hs1) in E0. rewrite (bind_eq _ _ _ _ _ E0).
+    inv H. apply (IHr Hs0) in E1. rewrite (bind_eq _ _ _ _ _ E1). done_ret H. reflexivity.
+  - (* DStar *) intros e IHe r IHr Hs i s kvs s' H. cbn [simple_d] in Hs. split_simple Hs.
+    cbn [ev_dpairs] in H. cbn [rc_dpairs].
+    inv H. apply (IHe Hs) in E. rewrite (bind_eq _ _ _ _ _ E). cbn beta iota.
+    inv H. apply lift_ok in E0 as [E0 ->]. rewrite (bind_eq _ _ _ _ _ (lift_eq _ _ _ E0)).
+    inv H. apply (IHr Hs0) in E1. rewrite (bind_eq _ _ _ _ _ E1). done_ret H. unfold ret, upd. rewrite map_app. reflexivity.
 Qed.
 
 (** ** the theorem for whole conditions *)
